@@ -288,10 +288,14 @@ def shift(array, shift, out=None, order=3, mode='constant', cval=0.0,
         The shifted input.
 
     """
+    same_for_all_axes = (np.ndim(shift) == 0)
     array = _maybe_filter(array, order, 'interpolate.shift', prefilter, dtype=np.float64)
     _check_mode(mode, cval, 'interpolation.shift')
     output = internal._get_output(array, out, 'interpolate.shift', dtype=np.float64, output=output)
     shift = -np.ascontiguousarray(shift, dtype=np.float64)
+    if same_for_all_axes:
+        # a single number: the same shift along every axis
+        shift = np.ascontiguousarray(np.repeat(shift.ravel(), array.ndim))
     _interpolate.zoom_shift(array, None, shift, output, order, mode2int[mode], cval)
     return output
 
